@@ -101,3 +101,7 @@ func VerifDirCacheSize(n *AbsfsNFS) int {
 	return n.dirCache.Size()
 }
 func VerifWriteVerf(s *Server) [8]byte { return s.writeVerf }
+
+// ---- host filter (C09) ----
+func VerifServerIPAllowed(s *Server, ip string) bool     { return s.isIPAllowed(ip) }
+func VerifAuthIPAllowed(ip string, allowed []string) bool { return isIPAllowed(ip, allowed) }
